@@ -548,9 +548,13 @@ def _type_based_yield(
     *,
     seen_paths: set[str],
 ) -> Iterator[Breakage]:
-    if old_member.path in seen_paths:
+    # An old object can be exposed under several public names (re-exports, aliases),
+    # and each of these names can point to a different object in the new version:
+    # compare each (old, new) pair once. Pairs still guard against cycles.
+    seen_key = f"{old_member.path}|{new_member.path}"
+    if seen_key in seen_paths:
         return
-    seen_paths.add(old_member.path)
+    seen_paths.add(seen_key)
     if old_member.is_alias or new_member.is_alias:
         # Should be first, since there can be the case where there is an alias and another kind of object,
         # which may not be a breaking change.
